@@ -14,6 +14,7 @@ import time
 from . import gen
 from . import state_inventory
 from . import litdir
+from . import translate
 
 VERIF = os.path.dirname(os.path.dirname(os.path.abspath(__file__)))
 LEAN = os.path.join(VERIF, "lean")
@@ -33,6 +34,9 @@ TRUSTED_BASE = [
     "L2 specifications (Mctp/Spec/*.lean) - what the theorems mean",
     "modelled, not verified: Rust slice/index/cast/overflow semantics, bitfield 0.14.0 macro expansion, smbus-pec CRC, Cell",
     "Rust executor /verif/harness, Lean driver, Python orchestrator (line protocol, canonical text, catch_unwind)",
+    "translator tie (checker/translate.py + Mctp/Mir/Sem.lean): rustc +nightly's MIR dump of /repo's working tree, the syntactic "
+    "MIR/bitfield!/const parser, and the MIR-fragment semantics written in Lean; covers the table functions, enum values, "
+    "bit-field declarations and constants only",
 ]
 
 
@@ -241,6 +245,88 @@ def audit(prop):
             if FORBIDDEN.search(code):
                 scan_bad.append("%s:%d: %s" % (os.path.relpath(path_, LEAN), i + 1, code.strip()))
     return ok, bad, scan_bad, out if rc != 0 else ""
+
+
+# ----------------------------------------------------------------------------- the tie by translation
+
+
+def tie_check(prop):
+    """Regenerate lean/Mctp/Gen/Source.lean from /repo's working tree and re-check the tie theorems that
+    belong to `prop`.  Returns (info for the evidence, [broken ties]).  A tie module that does not build
+    because its fragment of the source is outside what the translator understands is reported as
+    'not translated' (the dynamic correspondence is then the only tie for that fragment) - that is not
+    an alarm; a module whose fragments were all translated and whose theorems no longer check is a
+    broken proof obligation.  Call with the lock held."""
+    ties = json.load(open(os.path.join(VERIF, "checker", "ties.json")))
+    mine = {m: t for m, t in ties.items() if prop in t["properties"]}
+    info = {"generated_file": "lean/Mctp/Gen/Source.lean (rewritten on every run from /repo's working tree)", "modules": {}}
+    if not mine:
+        info["note"] = "no translated fragment belongs to this property"
+        return info, []
+    try:
+        status = translate.generate()
+    except Exception as e:       # the translator itself failed: no translated tie in this run
+        info["translator_error"] = repr(e)[:500]
+        return info, []
+    info["fragments"] = status
+    broken = []
+    for m, t in sorted(mine.items()):
+        untranslated = []
+        for fr in t["fragments"]:
+            keys = [k for k in status if k.startswith("enum:")] if fr == "enum:*" else [fr]
+            for k in keys:
+                if k in status and status[k] != "translated":
+                    untranslated.append("%s: %s" % (k, status[k]))
+            if fr not in ("mir", "enum:*") and fr not in status:
+                untranslated.append("%s: not found in the source" % fr)
+        rc, out = sh(["lake", "build", m], cwd=LEAN)
+        rec = {"what": t["what"], "theorems": t["theorems"]}
+        if rc == 0:
+            # axiom audit of the tie theorems
+            os.makedirs(os.path.join(BUILD, "audit"), exist_ok=True)
+            ap = os.path.join(BUILD, "audit", "AuditTie_%s_%s.lean" % (prop, m.split(".")[-1]))
+            with open(ap, "w") as f:
+                f.write("import %s\n" % m + "".join("#print axioms %s\n" % n for n in t["theorems"]))
+            rc2, aout = sh(["lake", "env", "lean", ap], cwd=LEAN)
+            bad = []
+            for n in t["theorems"]:
+                mm = re.search(r"'%s' (does not depend on any axioms|depends on axioms: \[([^\]]*)\])" % re.escape(n), aout, flags=re.S)
+                if not mm:
+                    bad.append(n + ": missing")
+                elif mm.group(2) and not {a.strip() for a in mm.group(2).split(",") if a.strip()} <= ALLOWED_AXIOMS:
+                    bad.append(n + ": axioms " + mm.group(2))
+            if bad:
+                rec["status"] = "BROKEN: " + "; ".join(bad)
+                broken.append({"module": m, "theorems": t["theorems"], "failed": bad, "log": aout[-2000:], "what": t["what"]})
+            else:
+                rec["status"] = "checked: %d theorems, axioms within {propext, Classical.choice, Quot.sound}" % len(t["theorems"])
+        else:
+            # which theorems do the error lines fall into?
+            failed = set()
+            for mm in re.finditer(r"error: (\S+\.lean):(\d+):\d+", out):
+                try:
+                    src = open(os.path.join(LEAN, mm.group(1))).read().splitlines()
+                except OSError:
+                    continue
+                for i in range(min(int(mm.group(2)), len(src)) - 1, -1, -1):
+                    th = re.match(r"\s*(?:theorem|def|example)\s*(\S*)", src[i])
+                    if th:
+                        failed.add("%s (%s:%d)" % (th.group(1) or "example", mm.group(1), i + 1))
+                        break
+            if untranslated:
+                # a function outside the MIR fragment is emitted as `unsupported`: the theorems that run it cannot
+                # check and say nothing.  Theorems about the enums' variants and values do not run any function.
+                fn_free = {f for f in failed if not re.match(r"(\w+_from|\w+_len|\w+_len_spec|\w+_code_points|\w+_inverts|len_never_stuck|example) ", f)}
+                enums_ok = all(v == "translated" for k, v in status.items() if k.startswith("enum:")) and "mir" not in status
+                if not (fn_free and enums_ok and all(u.startswith("fn:") for u in untranslated)):
+                    rec["status"] = "not translated (no alarm; the dynamic correspondence is the only tie for this fragment): " + "; ".join(untranslated)[:600]
+                    info["modules"][m] = rec
+                    continue
+                failed = fn_free
+            rec["status"] = "BROKEN: " + ", ".join(sorted(failed))[:600]
+            broken.append({"module": m, "theorems": t["theorems"], "failed": sorted(failed), "log": out[-3000:], "what": t["what"]})
+        info["modules"][m] = rec
+    return info, broken
 
 
 # ----------------------------------------------------------------------------- running both sides
@@ -802,6 +888,11 @@ def check_property(prop, tier, seed, max_search=20000):
             cov["explanation"] = "the tie to the code could not be established: executor does not build"
             write_evidence(res)
             return res
+        # 2a. the tie by translation: regenerate the translated fragments from the source and re-check them
+        tie_info, tie_breaks = tie_check(prop)
+        cov["translator_tie"] = tie_info
+        cov["obligations"] += sum(len(t["theorems"]) for t in tie_info.get("modules", {}).values())
+        cov["discharged"] += sum(len(t["theorems"]) for t in tie_info.get("modules", {}).values() if t.get("status", "").startswith("checked"))
         fz_lines, fz_info = ([], {"status": "off (VERIF_NO_FUZZ)"}) if os.environ.get("VERIF_NO_FUZZ") else fuzz_lines(tier, seed)
         cov["coverage_guided_search"] = fz_info
 
@@ -1058,6 +1149,20 @@ def check_property(prop, tier, seed, max_search=20000):
         violation(p, " no-failing-input-found")
     elif static_breaks:
         res.notes.append("NOTE: the code's state also differs from the model's context: " + "; ".join(static_breaks)[:300])
+
+    if tie_breaks and not res.violations:
+        # a theorem that ties translated source to the model no longer checks, and this run found no input
+        # on which the property fails
+        p = write_replay(prop, "translated-tie", [], -1, None, None,
+                         "the code as translated from /repo's working tree no longer equals the model: "
+                         + "; ".join("%s: %s" % (b["module"], ", ".join(b["failed"])) for b in tie_breaks)[:1500],
+                         {"broken_ties": tie_breaks, "theorems_resting_on_model": thm["theorems"],
+                          "note": "lean/Mctp/Gen/Source.lean is the translation of the current source (checker/translate.py); "
+                                  "the listed theorems of Mctp/Tie state that it equals the hand-written model"})
+        violation(p, " no-failing-input-found")
+    elif tie_breaks:
+        res.notes.append("NOTE: the translated source also differs from the model: "
+                         + "; ".join("%s: %s" % (b["module"], ", ".join(b["failed"])) for b in tie_breaks)[:400])
 
     for fid, text in known.items():
         if fid in res.known_hit:
